@@ -584,7 +584,7 @@ func policerMain() {
 		Net: netT{K: 2, NN: [][]int{{1, 2, 3}}, Rep: []int{1}, Ecr: [][2]int{}}})
 	emit(&polCase{Src: "seed", Local: 3, InNM: true, Readable: true, Ans: [][2]int{{1, 1}}, MFlag: []int{2}, Shards: 1,
 		Net: netT{K: 2, NN: [][]int{{1, 2}}, Rep: []int{1}, Ecr: [][2]int{}}})
-	nRandom, maxRemote := 6000, 2
+	nRandom, maxRemote := 2600, 2
 	if thorough() {
 		nRandom, maxRemote = 60000, 3
 	}
